@@ -159,6 +159,71 @@ class Ctx:
         self.violations.append((key, what, artefact))
 
 
+
+# ---------------------------------------------------------------- the repository's own tests as a trace source
+
+def repo_test_traces(ctx, pkg, pattern, out_path, keep=lambda ev: True, par=8, per_test_timeout=300, limit=None):
+    """Build <pkg>'s test binary from REPO's working tree with -tags verif and run every test whose name
+    matches `pattern` in a process of its own with VERIF_TRACE set (internal/vhook's file sink), so each
+    test is one trace.  Writes `{"ev":"reset","case":<test>}` + the test's events (filtered by keep(ev))
+    to out_path.  A test that fails or times out with the hooks on contributes its trace but no verdict.
+    Returns stats."""
+    import concurrent.futures
+    os.makedirs(BUILD, exist_ok=True)
+    binp = os.path.join(BUILD, "repotest-%s.test" % pkg.strip("./").replace("/", "_"))
+    lock = open(os.path.join(BUILD, ".lock-" + os.path.basename(binp)), "w")
+    fcntl.flock(lock, fcntl.LOCK_EX)
+    try:
+        p = subprocess.run(["go", "test", "-tags", "verif", "-vet=off", "-c", "-o", binp, pkg], cwd=REPO, env=goenv(),
+                           capture_output=True, text=True)
+        if p.returncode != 0:
+            raise Undecided("building the test binary of %s with -tags verif failed:\n%s" % (pkg, p.stdout + p.stderr))
+        # a private copy: another check may rebuild while tests still run
+        mine = os.path.join(ctx.sub("repotest"), os.path.basename(binp))
+        shutil.copy2(binp, mine)
+    finally:
+        fcntl.flock(lock, fcntl.LOCK_UN)
+        lock.close()
+    cwd = os.path.join(REPO, pkg.lstrip("./"))
+    p = subprocess.run([mine, "-test.list", pattern], cwd=cwd, env=goenv(), capture_output=True, text=True, timeout=120)
+    names = [l.strip() for l in p.stdout.splitlines() if l.startswith("Test")]
+    if limit and len(names) > limit:
+        rng = __import__("random").Random(ctx.seed)
+        names = sorted(rng.sample(names, limit))
+    tdir = ctx.sub("repotest-traces")
+
+    def one(name):
+        tf = os.path.join(tdir, name + ".ndjson")
+        e = goenv()
+        e["VERIF_TRACE"] = tf
+        e["TMPDIR"] = ctx.sub("tmp")
+        try:
+            q = subprocess.run([mine, "-test.run", "^%s$" % name, "-test.count", "1", "-test.timeout", "%ds" % per_test_timeout],
+                               cwd=cwd, env=e, capture_output=True, text=True, timeout=per_test_timeout + 30)
+            return name, tf, q.returncode
+        except subprocess.TimeoutExpired:
+            return name, tf, -1
+    stats = {"pkg": pkg, "tests": len(names), "failed_with_hooks_on": [], "events": 0, "tests_with_events": 0}
+    with concurrent.futures.ThreadPoolExecutor(par) as ex:
+        res = list(ex.map(one, names))
+    with open(out_path, "a") as f:
+        for name, tf, rc in res:
+            if rc != 0:
+                stats["failed_with_hooks_on"].append(name)
+            if not os.path.exists(tf):
+                continue
+            rows = [r for r in read_nd(tf) if keep(r.get("ev", ""))]
+            os.remove(tf)
+            if not rows:
+                continue
+            stats["tests_with_events"] += 1
+            stats["events"] += len(rows)
+            f.write(json.dumps({"ev": "reset", "case": "%s:%s" % (pkg, name)}) + "\n")
+            for r in rows:
+                r.pop("seq", None)
+                f.write(json.dumps(r) + "\n")
+    return stats
+
 # ---------------------------------------------------------------- TLC
 
 _COV_RE = re.compile(r"^<(\w+) line (\d+), col (\d+) to line (\d+), col (\d+) of module (\w+)>: (\d+):(\d+)")
